@@ -202,6 +202,8 @@ pub enum Ev {
     /// synchronous call chain this demux belongs to
     Demux { machine: usize, app: usize, cause: Option<usize>, payload: Vec<u8>, local: Option<Ep>, remote: Option<Ep>, link: Option<LinkInfo> },
     Shutdown { machine: usize, app: usize, status: Option<u32> },
+    /// result of the echo `caller.send(ECHO+id)` a recorder made for `Demux` event `demux`
+    Echo { demux: usize, result: String },
     Note(String),
 }
 
@@ -251,6 +253,23 @@ impl Log {
         let id = g.len();
         g.push(Event { id, t_us, ev });
         id
+    }
+    /// Run `f` and log its event while holding the log lock, so that on a multi_thread runtime
+    /// the log order of such operations is their real order (`f` must not log).
+    pub fn push_with<R>(&self, f: impl FnOnce() -> (Ev, R)) -> (usize, R) {
+        let t_us = self.now_us();
+        let mut g = self.events.lock().unwrap();
+        let (ev, r) = f();
+        let id = g.len();
+        g.push(Event { id, t_us, ev });
+        (id, r)
+    }
+    /// Replace the result of an already logged `Listen` event (used by `open_and_listen`, whose
+    /// bind happens at the call but whose result is known only after the awaited open).
+    pub fn set_listen_result(&self, id: usize, r: String) {
+        if let Some(Event { ev: Ev::Listen { result, .. }, .. }) = self.events.lock().unwrap().get_mut(id) {
+            *result = r;
+        }
     }
     pub fn len(&self) -> usize {
         self.events.lock().unwrap().len()
@@ -374,6 +393,9 @@ pub struct AppSpec {
     /// which `Recorder<N>`
     pub n: usize,
     pub script: Vec<Action>,
+    /// answer every datagram through the caller session with the 8 bytes `ECHO` + id of the
+    /// `Demux` event (makes the session's endpoints observable on the wire); echoes are not echoed
+    pub echo: bool,
 }
 
 #[derive(Clone, Default)]
@@ -475,7 +497,7 @@ impl Scenario {
                 pids.iter().map(|x| x.to_string()).collect::<Vec<_>>().join(",")
             ));
             for a in &m.apps {
-                l.push(format!("app {} {}", i, a.n));
+                l.push(format!("app {} {}{}", i, a.n, if a.echo { " echo=1" } else { "" }));
                 for act in &a.script {
                     let t = act.at.map(|t| t.to_string()).unwrap_or("pre".into());
                     let body = match &act.kind {
@@ -563,10 +585,10 @@ impl Scenario {
                     }
                     sc.machines.push(m);
                 }
-                ["app", m, n] => {
+                ["app", m, n, rest @ ..] => {
                     let m: usize = m.parse().map_err(|_| bad())?;
                     let n: usize = n.parse().map_err(|_| bad())?;
-                    sc.machines.get_mut(m).ok_or_else(bad)?.apps.push(AppSpec { n, script: vec![] });
+                    sc.machines.get_mut(m).ok_or_else(bad)?.apps.push(AppSpec { n, script: vec![], echo: rest.contains(&"echo=1") });
                 }
                 ["act", m, n, t, kind, rest @ ..] => {
                     let m: usize = m.parse().map_err(|_| bad())?;
@@ -632,12 +654,14 @@ impl Scenario {
 // ------------------------------------------------------------------------------------------
 
 pub const MAX_RECORDERS: usize = 8;
+pub const ECHO_TAG: &[u8] = b"ECHO";
 
 /// Harness application.  `Recorder<0>` … `Recorder<7>` are distinct types (distinct `TypeId`s),
 /// so several can sit on one machine.  Runs its script from `start()`, logs every `demux`.
 pub struct Recorder<const N: usize> {
     pub machine_idx: usize,
     pub script: Vec<Action>,
+    pub echo: bool,
     pub log: Arc<Log>,
     shutdown: OnceLock<Shutdown>,
 }
@@ -670,7 +694,11 @@ pub fn rec_type_id(n: usize) -> TypeId {
 
 impl<const N: usize> Recorder<N> {
     pub fn new(machine_idx: usize, script: Vec<Action>, log: Arc<Log>) -> Self {
-        Recorder { machine_idx, script, log, shutdown: OnceLock::new() }
+        Recorder { machine_idx, script, echo: false, log, shutdown: OnceLock::new() }
+    }
+    pub fn echo(mut self, on: bool) -> Self {
+        self.echo = on;
+        self
     }
 }
 
@@ -709,11 +737,13 @@ pub async fn perform(ctx: &Ctx, kind: &ActionKind) {
     let (m, a, act) = (ctx.machine_idx, ctx.app, ctx.act);
     match kind {
         ActionKind::Listen(ep) => {
-            let r = match ctx.machine.protocol::<Udp>() {
-                Some(udp) => fmt_err(&udp.listen(ctx.id, ep.endpoint(), ctx.machine.clone())),
-                None => "err:no-udp".into(),
-            };
-            ctx.log.push(Ev::Listen { machine: m, app: a, ep: *ep, result: r });
+            ctx.log.push_with(|| {
+                let r = match ctx.machine.protocol::<Udp>() {
+                    Some(udp) => fmt_err(&udp.listen(ctx.id, ep.endpoint(), ctx.machine.clone())),
+                    None => "err:no-udp".into(),
+                };
+                (Ev::Listen { machine: m, app: a, ep: *ep, result: r }, ())
+            });
         }
         ActionKind::Open { local, remote, listen, payloads } => {
             let Some(udp) = ctx.machine.protocol::<Udp>() else {
@@ -721,6 +751,8 @@ pub async fn perform(ctx: &Ctx, kind: &ActionKind) {
                 return;
             };
             let eps = Endpoints::new(local.endpoint(), remote.endpoint());
+            // the bind of open_and_listen takes effect now, its result is known after the await
+            let listen_id = if *listen { Some(ctx.log.push(Ev::Listen { machine: m, app: a, ep: *local, result: "pending".into() })) } else { None };
             let (session, result): (Option<Arc<dyn Session>>, String) = if *listen {
                 match udp.open_and_listen(ctx.id, eps, ctx.machine.clone()).await {
                     Ok(s) => (Some(s), "ok".into()),
@@ -732,10 +764,10 @@ pub async fn perform(ctx: &Ctx, kind: &ActionKind) {
                     Err(e) => (None, fmt_err::<_>(&Err::<(), _>(e))),
                 }
             };
-            if *listen {
+            if let Some(id) = listen_id {
                 // the listen half of open_and_listen, for binding bookkeeping
                 let lr = if result == "ok" || !result.starts_with("err:Listen") { "ok".to_string() } else { result.clone() };
-                ctx.log.push(Ev::Listen { machine: m, app: a, ep: *local, result: lr });
+                ctx.log.set_listen_result(id, lr);
             }
             ctx.log.push(Ev::Open { machine: m, app: a, act, local: *local, remote: *remote, listen: *listen, result });
             if let Some(s) = session {
@@ -807,7 +839,7 @@ impl<const N: usize> Protocol for Recorder<N> {
         Ok(())
     }
 
-    fn demux(&self, message: Message, _caller: Arc<dyn Session>, control: Control, _machine: Arc<Machine>) -> Result<(), DemuxError> {
+    fn demux(&self, message: Message, caller: Arc<dyn Session>, control: Control, machine: Arc<Machine>) -> Result<(), DemuxError> {
         let ip = control.get::<Ipv4Header>().copied();
         let udp = control.get::<UdpHeader>().copied();
         let link = control.get::<pci::DemuxInfo>().map(|d| LinkInfo { slot: d.slot, src: d.source, dst: d.destination, mtu: d.mtu });
@@ -818,7 +850,15 @@ impl<const N: usize> Protocol for Recorder<N> {
             ),
             _ => (None, None),
         };
-        self.log.push(Ev::Demux { machine: self.machine_idx, app: N, cause: current_cause(), payload: message.to_vec(), local, remote, link });
+        let payload = message.to_vec();
+        let is_echo = payload.starts_with(ECHO_TAG);
+        let id = self.log.push(Ev::Demux { machine: self.machine_idx, app: N, cause: current_cause(), payload, local, remote, link });
+        if self.echo && !is_echo && local.is_some() {
+            let mut tag = ECHO_TAG.to_vec();
+            tag.extend_from_slice(&(id as u32).to_be_bytes());
+            let r = caller.send(Message::new(tag), machine);
+            self.log.push(Ev::Echo { demux: id, result: fmt_err(&r) });
+        }
         Ok(())
     }
 }
@@ -849,7 +889,10 @@ impl Protocol for Quiesce {
                 stable = 0;
                 last = n;
             }
-            if stable >= self.stable_ms {
+            // every frame an application handed down successfully has entered its network
+            let handed = self.log.count(|e| matches!(e, Ev::Sent { result, .. } | Ev::PciSend { result, .. } | Ev::Echo { result, .. } if result == "ok"));
+            let on_wire = self.log.count(|e| matches!(e, Ev::Wire { to: None, .. }));
+            if stable >= self.stable_ms && on_wire >= handed {
                 shutdown.shut_down();
                 return Ok(());
             }
@@ -894,16 +937,16 @@ pub fn build_ip_table(routes: &[Route]) -> IpTable<Recipient> {
     t
 }
 
-fn with_recorder(m: Machine, n: usize, idx: usize, script: Vec<Action>, log: Arc<Log>) -> Machine {
+fn with_recorder(m: Machine, n: usize, idx: usize, script: Vec<Action>, echo: bool, log: Arc<Log>) -> Machine {
     match n {
-        0 => m.with(Recorder::<0>::new(idx, script, log)),
-        1 => m.with(Recorder::<1>::new(idx, script, log)),
-        2 => m.with(Recorder::<2>::new(idx, script, log)),
-        3 => m.with(Recorder::<3>::new(idx, script, log)),
-        4 => m.with(Recorder::<4>::new(idx, script, log)),
-        5 => m.with(Recorder::<5>::new(idx, script, log)),
-        6 => m.with(Recorder::<6>::new(idx, script, log)),
-        7 => m.with(Recorder::<7>::new(idx, script, log)),
+        0 => m.with(Recorder::<0>::new(idx, script, log).echo(echo)),
+        1 => m.with(Recorder::<1>::new(idx, script, log).echo(echo)),
+        2 => m.with(Recorder::<2>::new(idx, script, log).echo(echo)),
+        3 => m.with(Recorder::<3>::new(idx, script, log).echo(echo)),
+        4 => m.with(Recorder::<4>::new(idx, script, log).echo(echo)),
+        5 => m.with(Recorder::<5>::new(idx, script, log).echo(echo)),
+        6 => m.with(Recorder::<6>::new(idx, script, log).echo(echo)),
+        7 => m.with(Recorder::<7>::new(idx, script, log).echo(echo)),
         _ => panic!("Recorder index {} out of range", n),
     }
 }
@@ -926,7 +969,7 @@ pub fn build_machine(idx: usize, spec: &MachineSpec, networks: &[Arc<Network>], 
         m = m.with(SocketAPI::new(None));
     }
     for a in &spec.apps {
-        m = with_recorder(m, a.n, idx, a.script.clone(), log.clone());
+        m = with_recorder(m, a.n, idx, a.script.clone(), a.echo, log.clone());
     }
     extra(idx, m, log).arc()
 }
@@ -1171,14 +1214,23 @@ pub fn worker_loop(run_case: impl Fn(&str) -> CaseReport) {
 fn run_batch(sub: &str, specs: &[String], hang_secs: u64) -> (Vec<CaseOutcome>, bool) {
     use std::process::{Command, Stdio};
     let exe = std::env::current_exe().expect("current_exe");
-    let mut child = Command::new(exe)
-        .args([sub, "--worker", "1"])
-        .env("RUST_BACKTRACE", "0")
-        .stdin(Stdio::piped())
-        .stdout(Stdio::piped())
-        .stderr(Stdio::piped())
-        .spawn()
-        .expect("spawn worker");
+    let mut spawned = None;
+    let mut last_err = String::new();
+    for attempt in 0..5 {
+        match Command::new(&exe).args([sub, "--worker", "1"]).env("RUST_BACKTRACE", "0").stdin(Stdio::piped()).stdout(Stdio::piped()).stderr(Stdio::piped()).spawn() {
+            Ok(c) => {
+                spawned = Some(c);
+                break;
+            }
+            Err(e) => {
+                last_err = format!("cannot start worker process: {}", e);
+                std::thread::sleep(Duration::from_millis(200 * (attempt + 1)));
+            }
+        }
+    }
+    let Some(mut child) = spawned else {
+        return (vec![CaseOutcome::Died { hung: false, stderr: last_err, panic_site: None }], true);
+    };
     let mut stdin = child.stdin.take().unwrap();
     let input: String = specs.iter().map(|s| esc(s) + "\n").collect();
     let feeder = std::thread::spawn(move || {
@@ -1315,7 +1367,7 @@ pub fn demo() {
     let sc = Scenario {
         nets: vec![NetSpec { mtu: Some(1500), lat_us: (2000, 0), thr: (0, 0) }],
         machines: vec![
-            MachineSpec { nets: vec![0], udp: true, apps: vec![AppSpec { n: 0, script: vec![Action { at: None, kind: ActionKind::Listen(a) }] }], ..Default::default() },
+            MachineSpec { nets: vec![0], udp: true, apps: vec![AppSpec { n: 0, script: vec![Action { at: None, kind: ActionKind::Listen(a) }], echo: true }], ..Default::default() },
             MachineSpec {
                 nets: vec![0],
                 udp: true,
@@ -1326,6 +1378,7 @@ pub fn demo() {
                         Action { at: Some(1000), kind: ActionKind::Open { local: b, remote: a, listen: false, payloads: vec![b"hi".to_vec()] } },
                         Action { at: Some(9000), kind: ActionKind::Shutdown(None) },
                     ],
+                    echo: false,
                 }],
                 ..Default::default()
             },
